@@ -1,1 +1,19 @@
 // hook file for ntp-proto/src/packet/mod.rs: declares the per-property harness modules
+#[cfg(any(verif_all, verif_c16))]
+#[path = "/verif/harness/ntp-proto/c16.rs"]
+mod c16;
+#[cfg(any(verif_all, verif_c17))]
+#[path = "/verif/harness/ntp-proto/c17.rs"]
+mod c17;
+#[cfg(any(verif_all, verif_c18))]
+#[path = "/verif/harness/ntp-proto/c18.rs"]
+mod c18;
+#[cfg(any(verif_all, verif_c19))]
+#[path = "/verif/harness/ntp-proto/c19.rs"]
+mod c19;
+#[cfg(any(verif_all, verif_c23, verif_c24, verif_c25))]
+#[path = "/verif/harness/ntp-proto/p1_common.rs"]
+mod p1_common;
+#[cfg(any(verif_all, verif_c23))]
+#[path = "/verif/harness/ntp-proto/c23.rs"]
+mod c23;
